@@ -360,6 +360,10 @@ func (c *genctx) genServerScenario(bad bool) *scenario {
 	if nreq > sc.cfg.maxStreams && !bad {
 		nreq = sc.cfg.maxStreams
 	}
+	if sweepPlans != nil {
+		nreq = sweepN
+		sc.cfg = srvCfg{maxStreams: 100, maxHeaderList: 1 << 20, maxBody: 4 << 20}
+	}
 	type strmq struct {
 		sid   uint32
 		units []unit
@@ -391,7 +395,9 @@ func (c *genctx) genServerScenario(bad bool) *scenario {
 			sid += 2 // skip an id
 		}
 	}
-	if bad {
+	if sweepPlans != nil {
+		sweepPlans(plans)
+	} else if bad {
 		c.injectOffence(plans, sc)
 	}
 	for _, p := range plans {
@@ -529,6 +535,16 @@ func (c *genctx) genServerScenario(bad bool) *scenario {
 // injectOffence alters one request plan (or the event stream) per the catalogue.
 func (c *genctx) injectOffence(plans []*reqPlan, sc *scenario) {
 	r := c.r
+	if r.chance(40) {
+		// message validation in bulk: most requests of the connection get a header-list edit of their own
+		// (a malformed request costs its stream only, so the others still have to be served)
+		for _, q := range plans {
+			if r.chance(75) {
+				c.headerOffence(q)
+			}
+		}
+		return
+	}
 	p := plans[r.intn(len(plans))]
 	off := []string{"uppercase", "pseudo-after-regular", "missing-path", "empty-path", "connection", "te", "cl-mismatch", "dup-method",
 		"status-pseudo", "unknown-pseudo", "cl-nonnumeric", "cl-overflow", "body-too-large", "header-list-too-large", "hpack-garbage", "too-many-streams",
@@ -613,7 +629,7 @@ func (c *genctx) injectOffence(plans []*reqPlan, sc *scenario) {
 		vocab := [][2]string{{":method", "GET"}, {":method", "POST"}, {":method", ""}, {":scheme", "https"}, {":scheme", "http"}, {":scheme", ""},
 			{":path", "/"}, {":path", "/other"}, {":path", ""}, {":authority", "example.org"}, {":authority", ""}, {":status", "200"}, {":foo", "x"},
 			{"x-a", "1"}, {"X-A", "1"}, {"te", "trailers"}, {"te", "gzip"}, {"te", ""}, {"connection", "close"}, {"upgrade", "h2c"},
-			{"content-length", "0"}, {"content-length", "3"}, {"content-length", "03"}, {"content-length", "x"}, {"content-length", ""}, {"host", "h"}, {"", "v"}}
+			{"content-length", "0"}, {"content-length", "3"}, {"content-length", "03"}, {"content-length", "x"}, {"content-length", ""}, {"", "v"}}
 		for n := 1 + r.intn(3); n > 0; n-- {
 			v := vocab[r.intn(len(vocab))]
 			switch r.intn(4) {
@@ -638,6 +654,55 @@ func (c *genctx) injectOffence(plans []*reqPlan, sc *scenario) {
 				}
 			}
 		}
+	}
+}
+
+// headerOffence edits one request's header list: two pseudo-headers of one name with every pairing of a usual,
+// another and an empty value (in either order), or one of the other RFC 7540 8.1.2 cases.
+func (c *genctx) headerOffence(p *reqPlan) {
+	r := c.r
+	p.offence = "header-list"
+	switch r.intn(10) {
+	case 0, 1, 2, 3:
+		name := []string{":method", ":scheme", ":path", ":authority"}[r.intn(4)]
+		vals := map[string][]string{":method": {"GET", "POST", ""}, ":scheme": {"https", "http", ""}, ":path": {"/", "/other", ""}, ":authority": {"example.org", "b.example", ""}}[name]
+		v1, v2 := vals[r.intn(3)], vals[r.intn(3)]
+		var fs [][2]string
+		placed := false
+		for _, kv := range p.fields {
+			if kv[0] == name {
+				if !placed {
+					fs = append(fs, [2]string{name, v1}, [2]string{name, v2})
+					placed = true
+				}
+				continue
+			}
+			fs = append(fs, kv)
+		}
+		if !placed {
+			fs = append([][2]string{{name, v1}, {name, v2}}, fs...)
+		}
+		p.fields = fs
+	case 4, 5, 6:
+		vocab := [][2]string{{":method", ""}, {":scheme", ""}, {":path", ""}, {":authority", ""}, {":status", "200"}, {":foo", "x"},
+			{"x-a", "1"}, {"X-A", "1"}, {"te", "trailers"}, {"te", "gzip"}, {"te", ""}, {"connection", "close"}, {"upgrade", "h2c"},
+			{"content-length", "0"}, {"content-length", "03"}, {"content-length", "x"}, {"content-length", ""}, {"", "v"}}
+		v := vocab[r.intn(len(vocab))]
+		i := r.intn(len(p.fields) + 1)
+		p.fields = append(p.fields[:i], append([][2]string{v}, p.fields[i:]...)...)
+	case 7: // one pseudo-header missing
+		name := []string{":method", ":scheme", ":path"}[r.intn(3)]
+		var fs [][2]string
+		for _, kv := range p.fields {
+			if kv[0] != name {
+				fs = append(fs, kv)
+			}
+		}
+		p.fields = fs
+	case 8: // a pseudo-header after a regular field
+		p.fields = append(p.fields, [2]string{[]string{":method", ":scheme", ":path", ":authority"}[r.intn(4)], "late"})
+	case 9: // two content-length fields, equal or not
+		p.fields = append(p.fields, [2]string{"content-length", "3"}, [2]string{"content-length", []string{"3", "4", "03"}[r.intn(3)]})
 	}
 }
 
@@ -947,7 +1012,13 @@ func (c *genctx) genFollowUps() *scenario {
 	sid += 2
 	switch r.intn(3) {
 	case 0: // refused: over the limit
-		sc.evs = append(sc.evs, c.headerUnit(victim, block(victim, "POST"), false, true).evs...)
+		b := block(victim, "POST")
+		if r.chance(35) {
+			// ... and its header block does not decode (an index in neither table, the reserved index 0, or a
+			// truncated literal): a compression error is a connection error whatever becomes of the stream
+			b = append(b, [][]byte{{0xfe}, {0x80}, {0x40, 0x05, 0x61}}[r.intn(3)]...)
+		}
+		sc.evs = append(sc.evs, c.headerUnit(victim, b, false, true).evs...)
 	case 1: // reset by the server: malformed (upper-case name), the limit does not matter
 		sc.evs = append(sc.evs, event{kind: 'D', sid: live[0], resp: c.genResp()})
 		live = live[1:]
@@ -1180,12 +1251,63 @@ func (c *genctx) genIdleTimeout() *scenario {
 	return sc
 }
 
+// sweepPlans, when set, replaces the random offence of genServerScenario: the scenario has sweepN requests and
+// the function edits their header lists.
+var sweepPlans func(plans []*reqPlan)
+var sweepN int
+
+// genValidationSweep: one third (part 0..2) of the 36 ways of sending a request pseudo-header twice - four
+// names, the first and the second value each a usual, another or an empty one - one request per way on one
+// connection. Every run of the suite goes through all 36 (three scenarios), whatever the seed.
+func (c *genctx) genValidationSweep(part int) *scenario {
+	names := []string{":method", ":scheme", ":path", ":authority"}
+	vals := map[string][]string{":method": {"GET", "POST", ""}, ":scheme": {"https", "http", ""}, ":path": {"/", "/other", ""}, ":authority": {"example.org", "b.example", ""}}
+	type combo struct{ name, v1, v2 string }
+	var all []combo
+	for _, n := range names {
+		for _, a := range vals[n] {
+			for _, b := range vals[n] {
+				all = append(all, combo{n, a, b})
+			}
+		}
+	}
+	mine := all[part*12 : part*12+12]
+	sweepN = len(mine)
+	sweepPlans = func(plans []*reqPlan) {
+		for i, p := range plans {
+			cb := mine[i%len(mine)]
+			p.offence = "header-list"
+			var fs [][2]string
+			placed := false
+			for _, kv := range p.fields {
+				if kv[0] == cb.name {
+					if !placed {
+						fs = append(fs, [2]string{cb.name, cb.v1}, [2]string{cb.name, cb.v2})
+						placed = true
+					}
+					continue
+				}
+				fs = append(fs, kv)
+			}
+			if !placed {
+				fs = append([][2]string{{cb.name, cb.v1}, {cb.name, cb.v2}}, fs...)
+			}
+			p.fields = fs
+		}
+	}
+	defer func() { sweepPlans = nil }()
+	return c.genServerScenario(true)
+}
+
 func genServer(c *genctx) {
 	n := c.n
 	for i := 0; i < n; i++ {
 		var sc *scenario
 		kind := "good"
 		switch {
+		case i%128 == 17:
+			sc = c.genValidationSweep((i / 128) % 3)
+			kind = "validation-sweep"
 		case i%50 == 7:
 			sc = c.genManyStreams()
 			kind = "many-streams"
